@@ -237,7 +237,8 @@ def text_means_unit(rep: Report, prog: Program, rid: str = "R11.6") -> None:
     denote the unit: ln m + sum e_i ln p_i = ln P (sa/termwalk.py), and each caller folds the magnitude in by
     multiplication (or prints it in front)."""
     from ..termwalk import TermWalk, judge
-    fi = prog.func("formatting._unit_to_magnitude_and_terms")
+    from ..termwalk import term_splitter
+    fi = term_splitter(prog)
     try:
         w = TermWalk(fi.node)  # type: ignore[arg-type]
         rets = w.run()
@@ -259,7 +260,7 @@ def text_means_unit(rep: Report, prog: Program, rid: str = "R11.6") -> None:
         if cfi.module != "formatting" or q == fi.qual:
             continue
         for n in ast.walk(cfi.node):
-            if not (isinstance(n, ast.Assign) and isinstance(n.value, ast.Call) and ast.unparse(n.value.func) == "_unit_to_magnitude_and_terms"
+            if not (isinstance(n, ast.Assign) and isinstance(n.value, ast.Call) and ast.unparse(n.value.func) == fi.name
                     and len(n.targets) == 1 and isinstance(n.targets[0], ast.Tuple) and len(n.targets[0].elts) == 2
                     and isinstance(n.targets[0].elts[0], ast.Name)):
                 continue
